@@ -49,7 +49,7 @@ Print Assumptions C40_same_host_meaning.
 (** AS-host key: only to the destination host of a request towards the local AS *)
 Theorem C40_serve_as_host : forall l p q c,
   serve_as_host l p q = Some c <->
-  q_ts_ok q = true /\ c = CallASHost (proto_of_pb (q_proto q)) (q_src q) (q_dst q) /\
+  q_ts_ok q = true /\ c = CallASHost (proto_of_pb (q_proto q)) (q_src q) (q_dst q) (q_dsth q) /\
   proto_of_pb (q_proto q) <> generic /\ q_dst q = l /\
   exists a, p = PTCP a /\ same_host a (q_dsth q).
 Proof. exact serve_as_host_iff. Qed.
@@ -58,7 +58,7 @@ Print Assumptions C40_serve_as_host.
 (** host-AS key: only to the source host of a request from the local AS *)
 Theorem C40_serve_host_as : forall l p q c,
   serve_host_as l p q = Some c <->
-  q_ts_ok q = true /\ c = CallHostAS (proto_of_pb (q_proto q)) (q_src q) (q_dst q) /\
+  q_ts_ok q = true /\ c = CallHostAS (proto_of_pb (q_proto q)) (q_src q) (q_dst q) (q_srch q) /\
   proto_of_pb (q_proto q) <> generic /\ q_src q = l /\
   exists a, p = PTCP a /\ same_host a (q_srch q).
 Proof. exact serve_host_as_iff. Qed.
@@ -67,7 +67,7 @@ Print Assumptions C40_serve_host_as.
 (** host-host key: only to a named host on the local side *)
 Theorem C40_serve_host_host : forall l p q c,
   serve_host_host l p q = Some c <->
-  q_ts_ok q = true /\ c = CallHostHost (proto_of_pb (q_proto q)) (q_src q) (q_dst q) /\
+  q_ts_ok q = true /\ c = CallHostHost (proto_of_pb (q_proto q)) (q_src q) (q_dst q) (q_srch q) (q_dsth q) /\
   proto_of_pb (q_proto q) <> generic /\
   exists a, p = PTCP a /\
     ((q_src q = l /\ same_host a (q_srch q)) \/ (q_dst q = l /\ same_host a (q_dsth q))).
@@ -88,11 +88,38 @@ Proof.
 Qed.
 Print Assumptions C40_lvl1.
 
-(** ... and never for an AS or host named in the request *)
-Theorem C40_lvl1_ignores_request_addresses : forall l p a q src dst srch dsth,
-  serve_lvl1 l p a (mkReq (q_proto q) (q_ts_ok q) src dst srch dsth) = serve_lvl1 l p a q.
-Proof. intros. reflexivity. Qed.
-Print Assumptions C40_lvl1_ignores_request_addresses.
+(** ... read off the call: the destination of a derived level-1 key is the AS of the verified
+    certificate presented with this request and its source the local AS; without a verified
+    certificate nothing is derived *)
+Theorem C40_lvl1_only_for_certificate_as : forall l p a q,
+  (forall pr s d, serve_lvl1 l p a q = Some (CallDeriveLvl1 pr s d) -> cert_ia a = Some d /\ s = l) /\
+  (cert_ia a = None -> serve_lvl1 l p a q = None).
+Proof.
+  intros l p a q. split.
+  - intros pr s d E. apply serve_lvl1_iff in E as (_ & _ & _ & ia & C & E). inversion E; subst. auto.
+  - intros C. destruct (serve_lvl1 l p a q) as [c|] eqn:E; [|reflexivity].
+    apply serve_lvl1_iff in E as (_ & _ & _ & ia & C' & _). congruence.
+Qed.
+Print Assumptions C40_lvl1_only_for_certificate_as.
+
+(** the host a level 2/3 key is derived for (the host handed to the engine) is the requester
+    itself: its address is the address of the TCP peer *)
+Theorem C40_key_for_validated_host : forall l p q,
+  (forall pr s d h, serve_as_host l p q = Some (CallASHost pr s d h) ->
+     d = l /\ exists a, p = PTCP a /\ same_host a h) /\
+  (forall pr s d h, serve_host_as l p q = Some (CallHostAS pr s d h) ->
+     s = l /\ exists a, p = PTCP a /\ same_host a h) /\
+  (forall pr s d hs hd, serve_host_host l p q = Some (CallHostHost pr s d hs hd) ->
+     exists a, p = PTCP a /\ ((s = l /\ same_host a hs) \/ (d = l /\ same_host a hd))).
+Proof.
+  intros l p q. repeat split.
+  - apply serve_as_host_iff in H as (_ & E & _ & D & _). inversion E; subst. reflexivity.
+  - apply serve_as_host_iff in H as (_ & E & _ & _ & X). inversion E; subst. exact X.
+  - apply serve_host_as_iff in H as (_ & E & _ & D & _). inversion E; subst. reflexivity.
+  - apply serve_host_as_iff in H as (_ & E & _ & _ & X). inversion E; subst. exact X.
+  - intros pr s d hs hd H. apply serve_host_host_iff in H as (_ & E & _ & X). inversion E; subst. exact X.
+Qed.
+Print Assumptions C40_key_for_validated_host.
 
 (** secret values: only to a (host, protocol) pair of the configured set *)
 Theorem C40_sv : forall s p q c,
@@ -153,7 +180,7 @@ Print Assumptions C40_sequences.
 Example C40_example :
   let h := [0;0;0;0;0;0;0;0;0;0;255;255;10;1;2;3] in
   let p := PTCP h in
-  serve_as_host 7 p (mkReq 1 true 5 7 [] [10;1;2;3]) = Some (CallASHost 1 5 7) /\
+  serve_as_host 7 p (mkReq 1 true 5 7 [] [10;1;2;3]) = Some (CallASHost 1 5 7 [10;1;2;3]) /\
   serve_as_host 7 p (mkReq 0 true 5 7 [] [10;1;2;3]) = None /\
   serve_as_host 7 p (mkReq 65536 true 5 7 [] [10;1;2;3]) = None /\
   serve_as_host 7 p (mkReq 1 true 5 7 [] [10;1;2;4]) = None /\
